@@ -93,7 +93,10 @@ pub fn go_to_definition(
 
     for folder in find_folders(&state.folders, &loc) {
         let tree = folder.module(&loc).unwrap();
-        if let Some(v) = syntax_at::<Variable<_>>(tree, index) {
+        // The position must be on an identifier, not merely within the variable.
+        let variable = syntax_at::<Identifier<_>>(tree, index)
+            .and_then(|ident| Variable::cast(ident.node().ancestors().nth(1).unwrap()));
+        if let Some(v) = variable {
             if let Some(Definition::External(ext)) = v.node().syntax().core_ref().definition() {
                 let definition = ext.node(folder.modules().unwrap());
                 let location = node_location(&mut state.workspace, definition)?;
